@@ -189,6 +189,80 @@ def ev(t):
     raise ValueError(t)
 
 
+def ev_exact(t):
+    """ev_exact0 restricted to intmax_t: None as soon as the exact value leaves 64 bits somewhere"""
+    try:
+        return _ev_exact(t)
+    except OverflowError:
+        return None
+
+
+def _chk64(x):
+    if x is not None and not -(1 << 63) <= x < (1 << 63):
+        raise OverflowError
+    return x
+
+
+def _ev_exact(t):
+    """The value of an int-typed tree in exact integer arithmetic (what the preprocessor, which evaluates in
+    intmax_t, computes for it), or None where even that has no value.  Only used for the class `ovf`:
+    C++ gives such an expression no value, a tool that evaluates in a wider type may report the exact value
+    when that fits in int."""
+    k = t[0]
+    if k in ("lit", "ulit"):
+        return t[1]
+    if k == "sp":
+        return t[2]
+    if k == "big":
+        return None
+    if k == "un":
+        x = _ev_exact(t[2])
+        if x is None:
+            return None
+        return _chk64({"+": x, "-": -x, "~": ~x, "!": int(x == 0)}[t[1]])
+    if k == "cast":
+        x = _ev_exact(t[2])
+        if x is None:
+            return None
+        # conversion of the exact value to the target type: modulo 2^N (C++20)
+        if t[1] == "bool":
+            return int(x != 0)
+        bits = {"int": 32, "short": 16, "char": 8}[t[1]]
+        return ((x + (1 << (bits - 1))) % (1 << bits)) - (1 << (bits - 1))
+    if k == "bin":
+        op = t[1]
+        x = _ev_exact(t[2])
+        if x is None:
+            return None
+        if op == "&&" and x == 0:
+            return 0
+        if op == "||" and x != 0:
+            return 1
+        y = _ev_exact(t[3])
+        if y is None:
+            return None
+        if op in ("&&", "||"):
+            return int(y != 0)
+        if op in "/%":
+            if y == 0:
+                return None
+            q = _quot(x, y)
+            return q if op == "/" else x - q * y
+        if op in ("<<", ">>"):
+            if y < 0 or y > 31 or (op == "<<" and x < 0):
+                return None
+            return _chk64(x << y) if op == "<<" else x >> y
+        if op in "+-*":
+            return _chk64({"+": x + y, "-": x - y, "*": x * y}[op])
+        if op in "&|^":
+            return {"&": x & y, "|": x | y, "^": x ^ y}[op]
+        return int({"<": x < y, ">": x > y, "<=": x <= y, ">=": x >= y, "==": x == y, "!=": x != y}[op])
+    c = _ev_exact(t[1])
+    if c is None:
+        return None
+    return _ev_exact(t[2]) if c != 0 else _ev_exact(t[3])
+
+
 # ---------------------------------------------------------------------------------------------
 # token sequences (Toks / FullToks of the spec).  A leaf token is the decimal spelling of the value
 # for ["lit", v] and the given text for ["sp", text, v].
